@@ -10,7 +10,7 @@ for ID in "$@"; do
   LLVM_PROFILE_FILE=/tmp/cov/raw-%8m.profraw VERIF_NO_DBG=1 VERIF_DIR=/tmp/cov/out VERIF_CASE_SCALE=${SCALE:-0.25} target/cov/release/hv check "$ID" 2>&1 | tail -1 | cut -c1-160
 done
 $BIN/llvm-profdata merge -sparse /tmp/cov/raw-*.profraw -o /tmp/cov/all.profdata
-$BIN/llvm-cov report target/cov/release/hv -instr-profile=/tmp/cov/all.profdata /repo/src 2>/dev/null | grep -E "Filename|repo/src|TOTAL" | awk '{print $1, $8, $9, $10}' | column -t
+$BIN/llvm-cov report target/cov/release/hv -instr-profile=/tmp/cov/all.profdata /repo/src 2>/dev/null | grep -E "Filename|repo/src|TOTAL" | awk '{print $1, $8, $9, $10}'
 for f in opt.rs bc.rs exec/basejit/codegen.rs exec/bcint/ops.rs ir.rs; do
   $BIN/llvm-cov show target/cov/release/hv -instr-profile=/tmp/cov/all.profdata /repo/src/$f -show-line-counts-or-regions 2>/dev/null > /tmp/cov/$(basename $f).txt
 done
